@@ -11,10 +11,11 @@ from props import _engineb
 ID = "C06"
 LEVEL = "other"
 
-BOUNDS = ("Hamiltonian: N = 1..4 atoms (thorough: + N = 5 spot cases), every zero/non-zero phase pattern, every "
-          "interaction sparsity pattern for N <= 3 (thorough: N = 4 patterns with 2, 4 or 5 pairs too); "
-          "Lindbladian: N = 1..2 (thorough: N = 3), 0-2 (thorough: 0-3) symbolic 2x2 jump operators, CPU and "
-          "forced-batched branch; batched 2x2 matmul: batch <= 4 (thorough 16), columns <= 5 (thorough 8)")
+BOUNDS = ("Hamiltonian: N = 1..4 atoms, every zero/non-zero phase pattern, every interaction sparsity pattern for "
+          "N <= 3 and two patterns at N = 4 (thorough: all 64 patterns at N = 4, all 32 phase patterns x {all pairs, "
+          "chain, none} at N = 5, 10 cases at N = 6, 3 at N = 7); Lindbladian: N = 1..2 (thorough: N = 3 with all "
+          "phase patterns), 0-2 (thorough: 0-3) symbolic 2x2 jump operators, CPU and forced-batched branch, Hermitian "
+          "and arbitrary complex matrices; batched 2x2 matmul: batch <= 4 (thorough 16), columns <= 5 (thorough 8)")
 
 CONTROLS = [
     dict(name="sv_ham: upper element uses the unconjugated phase",
@@ -57,7 +58,7 @@ SPEC = dict(
     controls=CONTROLS,
     quick_controls=QUICK_CONTROLS,
     exhaustive=False,
-    min_cases=dict(quick=150, thorough=600),
+    min_cases=dict(quick=200, thorough=1400),
     assumptions=[
         "A1: float64/complex128 arithmetic is read as exact real/complex arithmetic (rounding is not modelled)",
         "A3: each torch operation used by the checked functions has the element-wise meaning implemented in "
